@@ -41,11 +41,16 @@ def e2e_stream(tier, seed):
     res = dict(E=E, lines=lines, model=model, ok=ok)
     res["gen"] = E.generate(ok, rng=G.SplitMix64(seed + 99), perfile=20, per_invocation=4)
     res["extract"] = E.extract()
-    res["vet"] = E.vet()
     _cache[key] = res
     return res
 
+def need_vet(S):
+    if "vet" not in S:
+        S["vet"] = S["E"].vet()
+    return S["vet"]
+
 def need_runner(S):
+    need_vet(S)
     if "runner" not in S:
         S["runner"] = S["E"].build_runner() if S["vet"][0] == 0 else (1, "not built: package does not type-check:\n" + S["vet"][1][-600:])
     return S["runner"]
@@ -154,6 +159,20 @@ def check_c04(tier, seed):
             if rc2 != 0:
                 refused.append((lbl, out2.strip().splitlines()[-1][:200] if out2.strip() else ""))
         R.coverage["type_universe_refused_by_generator"] = refused
+        # hand-written invocations: several packages with one name in one invocation, files generated by other tools,
+        # user types named like the emitter's hard-coded locals
+        for lbl, pkgs, files in TS.render_special(TM.root):
+            ty_cases += 1
+            rc2, out2 = C.run([cli] + files, cwd=TM.root, extra_env=TM.env(), timeout=300)
+            if rc2 != 0:
+                refused.append((lbl, out2.strip().splitlines()[-1][:200] if out2.strip() else ""))
+                continue
+            rc3, out3 = C.run(["go", "build", "-gcflags=-e", "-o", os.devnull] + pkgs, cwd=TM.root, extra_env=TM.env(), timeout=600)
+            if rc3 != 0:
+                msgs = [l.strip() for l in out3.splitlines() if re.match(r"^\S+\.go:\d+", l.strip())]
+                srcs = {f: open(os.path.join(TM.root, f)).read() for f in files}
+                R.finding("special:" + lbl, "generation succeeded but the output does not compile for case '%s': %s" % (lbl, (msgs or [out3[-200:]])[0]),
+                          {"kind": "input", "failing_input": srcs, "invocation": "kessoku " + " ".join(files), "case": lbl, "errors": msgs[:5]})
         for pkgd in ("ty", "nm"):
             rc3, out3 = C.run(["go", "build", "-gcflags=-e", "-o", os.devnull, "./%s/" % pkgd], cwd=TM.root, extra_env=TM.env(), timeout=1200)
             per = collections.defaultdict(list)
@@ -412,3 +431,15 @@ def check_c07(tier, seed):
 
 def check_c08(tier, seed):
     return run_failure_property("C08", tier, seed, "false after a main-thread provider-error return: known finding K8, proved as C08_neg")
+
+
+def emission_obligation(R, tier, seed):
+    """shared by the planner-level checks: the text the real CLI emits for seeded declarations (through go/packages,
+    provider-type decoding, Set flattening, Bind/Async nesting, Value) has the structure the model's emission predicts"""
+    S = e2e_stream(tier, seed)
+    bad_gen = [(rc, out, fs) for rc, out, fs in S["gen"] if rc != 0]
+    diffs = emission_diffs(S)
+    R.oblige("correspondence (end to end): structure of the emitted *_band.go = KV.planDumpE on %d rendered declarations" % len(S["ok"]),
+             not diffs and not bad_gen, "%d differ, %d invocations failed; first: %s" % (len(diffs), len(bad_gen), [d[1:] for d in diffs[:1]] or [b[1][-200:] for b in bad_gen[:1]]))
+    R.coverage["end_to_end_declarations"] = len(S["ok"])
+    return S, diffs
